@@ -104,3 +104,11 @@ func verifRoundTripBMPPeerHeader(h *BMPPeerHeader) bool {
 //@ func parseBMPMessage
 //@   strict-len
 //@   claims bounds
+
+// Peer Up: the local address is read as 16 octets exactly when the per-peer header says IPv6 - its V flag, which a
+// Loc-RIB instance peer (RFC 9069 4.1) does not have (there bit 0 is the F flag)
+//@ func (*BMPPeerUpNotification).ParseBody
+//@   requires body != nil && msg != nil
+//@   claims at-call
+//@   at-call netip.AddrFromSlice(data[:16]) requires msg.PeerHeader.PeerType != BMP_PEER_TYPE_LOCAL_RIB && msg.PeerHeader.Flags&BMP_PEER_FLAG_IPV6 != 0
+//@   at-call netip.AddrFromSlice(data[12:16]) requires msg.PeerHeader.PeerType == BMP_PEER_TYPE_LOCAL_RIB || msg.PeerHeader.Flags&BMP_PEER_FLAG_IPV6 == 0
